@@ -22,7 +22,7 @@ ISAS = ["sse2", "avx2", "avx512"]
 
 REG_TYPES = {"__m128", "__m128d", "__m128i", "__m256", "__m256d", "__m256i", "__m512", "__m512d", "__m512i"}
 SCALAR_TYPES = {"int": "i32", "int32_t": "i32", "int64_t": "i64", "Int64": "i64", "long long": "i64", "float": "f32", "double": "f64"}
-LEAN_TY = {"R": "Reg", "i32": "BitVec 32", "f32": "BitVec 32", "i64": "BitVec 64", "f64": "BitVec 64", "C": "Reg × Reg"}
+LEAN_TY = {"R": "Reg", "i32": "BitVec 32", "f32": "BitVec 32", "i64": "BitVec 64", "f64": "BitVec 64", "C": "Reg × Reg", "P32": "Reg", "P64": "Reg"}
 TNAME = {"int32_t": "int32", "int": "int32", "int64_t": "int64", "Int64": "int64", "float": "float", "double": "double",
          "std::complex<float>": "cfloat", "std::complex<double>": "cdouble"}
 def is_cplx(T): return T.startswith("std::complex")
@@ -165,6 +165,11 @@ class Parser:
         raise Untranslatable("cannot use a %s where a %s is needed (%s)" % (v.kind, kind, v.text))
 
     def binop(self, op, a, b):
+        if a.kind in ("P32", "P64") and b.kind == "imm" and op in "+-":
+            scale = 1 if a.kind == "P32" else 2
+            d = b.const if op == "+" else -b.const
+            if a.text[1] + d * scale < 0: raise Untranslatable("negative pointer offset")
+            return Val(a.kind, (a.text[0], a.text[1] + d * scale), ctype=a.ctype)
         if a.kind == "imm" and b.kind == "imm":
             x, y = a.const, b.const
             r = {"|": x | y, "&": x & y, "<<": x << y, ">>": x >> y, "+": x + y, "-": x - y, "*": x * y}[op]
@@ -197,6 +202,14 @@ class Parser:
                 self.eat(); return self.selfval()
             raise Untranslatable("pointer dereference")
         if tk == ("p", "("):
+            # pointer cast (T*)e : the word memory is untyped
+            j = self.i + 1
+            while j < len(self.t) and self.t[j][0] == "id": j += 1
+            if j > self.i + 1 and j + 1 < len(self.t) and self.t[j] == ("p", "*") and self.t[j + 1] == ("p", ")"):
+                save = self.i; self.i = j + 2
+                v = self.unary()
+                if v.kind in ("P32", "P64"): return v
+                self.i = save
             # cast?
             j = self.i + 1; names = []
             while j < len(self.t) and self.t[j][0] == "id": names.append(self.t[j][1]); j += 1
@@ -217,6 +230,15 @@ class Parser:
 
     def postfix(self):
         v = self.primary()
+        while self.peek() == ("p", "["):
+            self.eat(); ix = self.expr(); self.eat("]")
+            if v.kind not in ("P32", "P64") or ix.kind != "imm": raise Untranslatable("indexing")
+            name, off = v.text
+            if v.kind == "P32":
+                v = Val("f32" if v.ctype in ("float",) else "i32", "(%s %d)" % (name, off + ix.const))
+            else:
+                if (off % 2): raise Untranslatable("misaligned double index")
+                v = Val("f64" if v.ctype == "double" else "i64", "(lane64 %s %d)" % (name, off // 2 + ix.const))
         while self.peek() == ("p", "."):
             self.eat(); f = self.eat()[1]
             if f == "value" and v.kind == "V": v = Val("R", v.text, fo=v.fo, ctype=v.ctype)
@@ -273,6 +295,7 @@ class Parser:
             if v == "value_i" and self.cplx: return Val("R", "self_i", ctype=reg_ctype(*self.cls))
             if v in self.env:
                 k = self.env[v]
+                if k in ("P32", "P64"): return Val(k, (lname(v), 0), ctype=self.ctypes.get(v))
                 if k == "C": return Val("C", (lname(v) + "_r", lname(v) + "_i"))
                 return Val(k, lname(v), ctype=self.ctypes.get(v))
             raise Untranslatable("unknown identifier %s" % v)
@@ -312,6 +335,9 @@ class Parser:
             v, _ = self.call_translated(name, a)
             return v
         if base is None: raise Untranslatable("call of %s (not translated)" % name)
+        if re.match(r"^loadu?_(ps|pd|si128|si256|si512|epi32|epi64)$", base):
+            if len(a) != 1 or a[0].kind not in ("P32", "P64"): raise Untranslatable("load from a non-pointer")
+            return Val("R", "(loadw %s %d)" % a[0].text, fo=fo)
         if CAST_ID.match(base):
             if len(a) != 1: raise Untranslatable("cast arity")
             return Val("R", self.coerce(a[0], "R").text, fo=fo)
@@ -339,7 +365,7 @@ MARK = "inline __attribute__((always_inline))"
 def preprocess(isa, repo=None):
     repo = repo or core.REPO
     cmd = ["g++", "-std=c++14", "-E", "-P", "-O2", "-DFASTOR_VERIF", "-x", "c++"] + core.ISA_FLAGS[isa] + ["-I" + repo, "-"]
-    src = '#include "Fastor/simd_vector/SIMDVector.h"\n#include "Fastor/simd_math/simd_math.h"\n'
+    src = '#include "Fastor/simd_vector/SIMDVector.h"\n#include "Fastor/simd_math/simd_math.h"\n#include "Fastor/backend/transpose/transpose_kernels.h"\n#include "Fastor/backend/dyadic.h"\n'
     p = subprocess.run(cmd, input=src, stdout=subprocess.PIPE, stderr=subprocess.PIPE, text=True, timeout=600)
     if p.returncode != 0:
         raise RuntimeError("preprocessing failed for %s: %s" % (isa, p.stderr[-800:]))
@@ -404,6 +430,8 @@ def parse_type(t, cls=None):
     t = re.sub(r"^const\s+", "", t).strip()
     if t in REG_TYPES: return "R", t
     if t in SCALAR_TYPES: return SCALAR_TYPES[t], None
+    mp = re.match(r"^(float|double|int32_t|int64_t|int)\s*\*\s*(?:__restrict__|__restrict)?$", t)
+    if mp: return ("P64" if mp.group(1) in ("double", "int64_t") else "P32"), mp.group(1)
     if cls is not None:
         if t == "vector_type": return ("C" if is_cplx(cls[0]) else "V"), cls
         if t == "value_type": return "R", reg_ctype(*cls)
@@ -430,11 +458,12 @@ def parse_params(ps, cls=None):
         m = re.match(r"^(.*?)([A-Za-z_]\w*)$", p, re.S)
         if not m: raise Untranslatable("parameter %r" % p)
         ty, nm = m.group(1).strip(), m.group(2)
+        ty = re.sub(r"\s*(__restrict__|__restrict)\s*", "", ty)
         is_ref = ty.endswith("&"); is_const = ty.startswith("const")
         ty = ty.rstrip("&").strip()
         kind, info = parse_type(ty, cls)
         if kind is None: raise Untranslatable("parameter type %r" % ty)
-        out.append((nm, kind, info, is_ref and not is_const and kind == "R"))
+        out.append((nm, kind, info, (is_ref and not is_const and kind == "R") or (kind in ("P32", "P64") and not is_const)))
     return out
 
 OPNAMES = {"+": "add", "-": "sub", "*": "mul", "/": "div", "+=": "iadd", "-=": "isub", "*=": "imul", "/=": "idiv"}
@@ -442,7 +471,7 @@ OPNAMES = {"+": "add", "-": "sub", "*": "mul", "/": "div", "+=": "iadd", "-=": "
 def split_statements(body):
     if re.search(r"\b(for|while|if|else|switch|do|goto)\b", body):
         raise Untranslatable("control flow in the body")
-    if "[" in body: raise Untranslatable("array / pointer indexing in the body")
+    if re.search(r"\[[^\]]*[A-Za-z_][^\]]*\]", body): raise Untranslatable("array / pointer indexing with a non-constant index")
     return [s.strip() for s in body.split(";") if s.strip()]
 
 def kletter(k):
@@ -472,7 +501,7 @@ def translate_function(f, funcs):
     outs = []
     for (nm, k, info, is_out) in params:
         env[nm] = k
-        if k == "R": ctypes[nm] = info
+        if k in ("R", "P32", "P64"): ctypes[nm] = info
         if k == "V": ctypes[nm] = reg_ctype(*info)
         lparams.append((lname(nm), "R" if k == "V" else k))
         if k == "C": prologue += [(lname(nm) + "_r", lname(nm) + ".1"), (lname(nm) + "_i", lname(nm) + ".2")]
@@ -493,7 +522,7 @@ def translate_function(f, funcs):
             nm0 = re.sub(r"<.*$", "", name)
             lean = "%s.%s%s" % (pre, nm0, ("_" + ks) if (ks and set(ks) != {"v"}) or (nm0 in ("set", "min", "max")) else "")
     else:
-        lean = name.lstrip("_") if name.startswith("_mm") else "h_" + name.lstrip("_")
+        lean = name.lstrip("_") if name.startswith("_mm") else "h_" + re.sub(r"\W+", "_", name.lstrip("_")).strip("_")
     # result kind
     void_ret = f["ret"].strip() == "void"
     void_inplace = void_ret and cls is not None
@@ -566,6 +595,15 @@ def translate_function(f, funcs):
                 if k == "C" and v.kind != "C": raise Untranslatable("statement %r" % s[:70])
                 if k == "V": v = Parser([], env, funcs, cls, ctypes).coerce(v, "R"); ctypes[m.group(2)] = reg_ctype(*info)
                 env[m.group(2)] = k; bind(m.group(2), v); continue
+            # store through a pointer:  _mm_storeu_ps(p + k, e)
+            m = re.match(r"^_mm(256|512)?_storeu?_(ps|pd|si128|si256|si512)\s*\((.*)\)$", s, re.S)
+            if m:
+                aa = split_args(m.group(3))
+                if len(aa) != 2: raise Untranslatable("store arity")
+                pv = ev(aa[0]); rv = ev(aa[1], "R")
+                if pv.kind not in ("P32", "P64"): raise Untranslatable("store through a non-pointer")
+                W = {None: 4, "256": 8, "512": 16}[m.group(1)]
+                lets.append((pv.text[0], "(storew %s %d %d %s)" % (pv.text[0], pv.text[1], W, rv.text))); continue
             # call statement of a helper with reference (in-out) parameters
             m = re.match(r"^([A-Za-z_]\w*)\s*\((.*)\)$", s, re.S)
             if m and m.group(1) in funcs:
@@ -595,17 +633,18 @@ def translate_function(f, funcs):
             raise Untranslatable("statement %r" % s[:70])
         if result[0] is None:
             if void_inplace and selfmod[0]: result[0] = "(self_r, self_i)" if cplx_cls else "self"
+            elif ret_kind == "OUTS" and len(outs) > 2:
+                result[0] = "fun r => [%s].getD r setzero" % ", ".join(lname(o) for o in outs)
             elif ret_kind == "OUTS":
                 result[0] = lname(outs[0]) if len(outs) == 1 else "(%s)" % ", ".join(lname(o) for o in outs)
             else: raise Untranslatable("no result")
-    lean_ret = LEAN_TY[ret_kind] if ret_kind != "OUTS" else ("Reg" if len(outs) == 1 else "Reg × Reg")
-    if ret_kind == "OUTS" and len(outs) > 2: raise Untranslatable("more than two reference parameters")
+    lean_ret = LEAN_TY[ret_kind] if ret_kind != "OUTS" else ("Reg" if len(outs) == 1 else "Reg × Reg" if len(outs) == 2 else "Nat → Reg")
     sig = "".join(" (%s : %s)" % (n, LEAN_TY[k]) for n, k in lparams)
     lines = ["def %s%s%s : %s :=" % (lean, " (fo : FOps)" if fo[0] else "", sig, lean_ret)]
     for n, t in lets: lines.append("  let %s := %s" % (n, t))
     lines.append("  " + result[0])
     meta = {"lean": lean, "fo": fo[0], "kinds": [k for (_, k, _, _) in params], "ctypes": [(i if k == "R" else None) for (_, k, i, _) in params],
-            "ret": ("C" if (ret_kind == "OUTS" and len(outs) == 2) else "R" if ret_kind == "OUTS" else ret_kind),
+            "ret": ("ROWS" if (ret_kind == "OUTS" and len(outs) > 2) else "C" if (ret_kind == "OUTS" and len(outs) == 2) else "R" if ret_kind == "OUTS" else ret_kind),
             "outs": [n for n, (nm, _, _, o) in enumerate(params) if o], "retctype": (retinfo if retk == "R" else None),
             "cname": name, "owner": owner, "self": cls is not None and not is_ctor, "params": [(nm, k) for (nm, k, _, _) in params], "cls": cls, "cret": f["ret"].strip()}
     return lean, "\n".join(lines), meta
@@ -646,7 +685,7 @@ def translate(isa, repo=None):
     funcs = {}; used = set(); defs = []; untranslated = []; translated = []; metas = []
     for f in fns:
         nm = f["name"]
-        interesting = (f["cls"] is not None) or nm.startswith("_mm") or nm.startswith("_add") or nm in ("_addsub_ps", "_mulsub_ps", "_hsub_pd", "arrange_from_load", "arrange_for_store") \
+        interesting = (f["cls"] is not None) or nm.startswith("_mm") or nm.startswith("_add") or nm in ("_addsub_ps", "_mulsub_ps", "_hsub_pd", "arrange_from_load", "arrange_for_store") or nm.startswith("_MM_TRANSPOSE") or nm.startswith("_dyadic<") \
             or "SIMDVector<" in f["params"] or "SIMDVector<" in f["ret"]
         if not interesting: continue
         if "T,ABI" in f["sig"].replace(" ", "") or "template" in f["ret"]: continue
